@@ -12,6 +12,7 @@ import (
 	"os"
 	"reflect"
 	"runtime/debug"
+	"sort"
 	"strings"
 	"time"
 	"unsafe"
@@ -269,13 +270,13 @@ func sbody(kind int) func(c *vsched.Ctx) {
 				c1 := deriveOps(fmt.Sprintf("t%d", ti))[[]int{0, 1, 4}[k]]
 				child := vlog.Derive(parent, []vlog.ChainOp{c1})
 				child.Info("probe", vlog.Args(probeCall)...)
-				results[ti] = append(results[ti], result{append(append([]vlog.ChainOp{}, parentChain...), c1), w.last(vsched.Cur())})
+				results[ti] = append(results[ti], result{append(append([]vlog.ChainOp{}, parentChain...), c1), ""})
 				c2 := deriveOps(fmt.Sprintf("u%d", ti))[2]
 				gc := vlog.Derive(child, []vlog.ChainOp{c2})
 				parent.Info("probe", vlog.Args(probeCall)...)
-				results[ti] = append(results[ti], result{parentChain, w.last(vsched.Cur())})
+				results[ti] = append(results[ti], result{parentChain, ""})
 				gc.Info("probe", vlog.Args(probeCall)...)
-				results[ti] = append(results[ti], result{append(append(append([]vlog.ChainOp{}, parentChain...), c1), c2), w.last(vsched.Cur())})
+				results[ti] = append(results[ti], result{append(append(append([]vlog.ChainOp{}, parentChain...), c1), c2), ""})
 			})
 		}
 		c.OnEnd(func() string {
@@ -284,12 +285,39 @@ func sbody(kind int) func(c *vsched.Ctx) {
 				if len(rs) != 3 {
 					return fmt.Sprintf("C03: deriver%d did not finish", ti)
 				}
+				lab = append(lab, vlog.ChainString(rs[0].chain[len(rs[0].chain)-1:]))
+			}
+			// which goroutine performs the Write, and in how many pieces, is not this property's
+			// business: the lines written are compared, as a multiset, with the lines every logger
+			// writes when built alone
+			var want []string
+			desc := map[string]string{}
+			for _, rs := range results {
 				for _, r := range rs {
-					if want := alone(kind, r.chain); r.line != want {
-						return fmt.Sprintf("C03 (%s, concurrent derivation): chain %s wrote\n   %q\n alone it writes\n   %q", handlerNames[kind], vlog.ChainString(r.chain), r.line, want)
+					// physical lines on both sides (a nano record may contain raw line breaks)
+					for _, l := range strings.SplitAfter(alone(kind, r.chain), "\n") {
+						if l != "" {
+							want = append(want, l)
+							desc[l] = vlog.ChainString(r.chain)
+						}
 					}
 				}
-				lab = append(lab, vlog.ChainString(rs[0].chain[len(rs[0].chain)-1:]))
+			}
+			got := w.lines()
+			sort.Strings(want)
+			sort.Strings(got)
+			for i := 0; i < len(want) || i < len(got); i++ {
+				switch {
+				case i >= len(got):
+					return fmt.Sprintf("C03 (%s, concurrent derivation): the line of chain %s is missing:\n   %q", handlerNames[kind], desc[want[i]], want[i])
+				case i >= len(want):
+					return fmt.Sprintf("C03 (%s, concurrent derivation): a line was written that no logger writes alone:\n   %q", handlerNames[kind], got[i])
+				case got[i] != want[i]:
+					if _, ok := desc[got[i]]; !ok {
+						return fmt.Sprintf("C03 (%s, concurrent derivation): a line was written that no logger writes when built alone:\n   %q\n e.g. chain %s alone writes\n   %q", handlerNames[kind], got[i], desc[want[i]], want[i])
+					}
+					return fmt.Sprintf("C03 (%s, concurrent derivation): chain %s did not write its line\n   %q", handlerNames[kind], desc[want[i]], want[i])
+				}
 			}
 			c.Outcome(strings.Join(lab, "|"))
 			return ""
@@ -298,17 +326,24 @@ func sbody(kind int) func(c *vsched.Ctx) {
 }
 
 type ssink struct {
-	by map[*vsched.Thread]string
+	buf strings.Builder
 }
 
 func (s *ssink) Write(p []byte) (int, error) {
-	if s.by == nil {
-		s.by = map[*vsched.Thread]string{}
-	}
-	s.by[vsched.Cur()] = string(p)
+	s.buf.Write(p)
 	return len(p), nil
 }
-func (s *ssink) last(t *vsched.Thread) string { return s.by[t] }
+
+// lines returns what was written, cut at the newlines.
+func (s *ssink) lines() []string {
+	var out []string
+	for _, l := range strings.SplitAfter(s.buf.String(), "\n") {
+		if l != "" {
+			out = append(out, l)
+		}
+	}
+	return out
+}
 
 func newRoot2(kind int, w *ssink) *logger.Logger {
 	opts := logger.NewOptions(logger.LevelDebug, false, false)
@@ -321,9 +356,10 @@ func newRoot2(kind int, w *ssink) *logger.Logger {
 	return logger.New(logger.NewJsonHandler(w, opts))
 }
 
-// emptyGroupGivenToWith: at the call site an empty group does not appear (log/slog's Record
-// drops it), so given to With it must not appear either: the derived logger writes what its
-// parent writes, and With(empty group, k=1) what With(k=1) writes - in every context.
+// emptyGroupGivenToWith: attributes given to With appear exactly as if they had been passed at
+// the call site - also an empty group (which log/slog's Record drops at the call site): the
+// line of With(attrs).Info(msg, call...) is compared with that of Info(msg, attrs..., call...)
+// on the same kind of logger, in every context.
 func emptyGroupGivenToWith(kind int) (evals int, viols []vcommon.Violation) {
 	type ctxT struct {
 		name string
@@ -337,14 +373,16 @@ func emptyGroupGivenToWith(kind int) (evals int, viols []vcommon.Violation) {
 		{"WithGroup(g).With(a=1)", func(l *logger.Logger) *logger.Logger { return l.WithGroup("g").With("a", 1) }},
 	}
 	type caseT struct {
-		name       string
-		with, same func(*logger.Logger) *logger.Logger
+		name string
+		with func(*logger.Logger) *logger.Logger
+		site []any // the same attributes, to be passed at the call site instead
 	}
+	e, ef := slog.Group("e"), slog.Group("e", slog.Group("f"))
 	cases := []caseT{
-		{`With(Group("e"))`, func(l *logger.Logger) *logger.Logger { return l.With(slog.Group("e")) }, func(l *logger.Logger) *logger.Logger { return l }},
-		{`With(Group("e"), k=1)`, func(l *logger.Logger) *logger.Logger { return l.With(slog.Group("e"), "k", 1) }, func(l *logger.Logger) *logger.Logger { return l.With("k", 1) }},
-		{`With(k=1, Group("e"))`, func(l *logger.Logger) *logger.Logger { return l.With("k", 1, slog.Group("e")) }, func(l *logger.Logger) *logger.Logger { return l.With("k", 1) }},
-		{`With(Group("e", Group("f")))`, func(l *logger.Logger) *logger.Logger { return l.With(slog.Group("e", slog.Group("f"))) }, func(l *logger.Logger) *logger.Logger { return l }},
+		{`With(Group("e"))`, func(l *logger.Logger) *logger.Logger { return l.With(e) }, []any{e}},
+		{`With(Group("e"), k=1)`, func(l *logger.Logger) *logger.Logger { return l.With(e, "k", 1) }, []any{e, "k", 1}},
+		{`With(k=1, Group("e"))`, func(l *logger.Logger) *logger.Logger { return l.With("k", 1, e) }, []any{"k", 1, e}},
+		{`With(Group("e", Group("f")))`, func(l *logger.Logger) *logger.Logger { return l.With(ef) }, []any{ef}},
 	}
 	for _, cx := range ctxs {
 		for _, cs := range cases {
@@ -352,12 +390,12 @@ func emptyGroupGivenToWith(kind int) (evals int, viols []vcommon.Violation) {
 				evals++
 				w1, w2 := &sink{}, &sink{}
 				cs.with(cx.mk(newRoot(kind, w1))).Info("probe", call...)
-				cs.same(cx.mk(newRoot(kind, w2))).Info("probe", call...)
+				cx.mk(newRoot(kind, w2)).Info("probe", append(append([]any{}, cs.site...), call...)...)
 				got, want := strings.Join(w1.chunks, ""), strings.Join(w2.chunks, "")
 				if got != want {
 					viols = append(viols, vcommon.Violation{Scenario: "E-" + handlerNames[kind] + "-empty-group-given-to-With",
 						Fingerprint: fmt.Sprintf("empty-group|%s|%s|%s", handlerNames[kind], cx.name, cs.name),
-						Message:     fmt.Sprintf("C03 (%s): %s.%s.Info(probe%v) wrote\n   %q\nalthough an empty group passed at the call site does not appear, so the line should be\n   %q", handlerNames[kind], cx.name, cs.name, call, clipS(got), clipS(want)),
+						Message:     fmt.Sprintf("C03 (%s): %s.%s.Info(probe%v) wrote\n   %q\nbut with the same attributes passed at the call site, ahead of the call's own, the line is\n   %q", handlerNames[kind], cx.name, cs.name, call, clipS(got), clipS(want)),
 						Witness:     map[string]any{"handler": handlerNames[kind], "context": cx.name, "derivation": cs.name}})
 					return
 				}
